@@ -170,6 +170,20 @@ func VerifC15Match() {
 		}
 		evs[i] = e
 		row := map[string]any{"id": i, "ts": e.ts, "a": zzverif.B2I(e.a), "b": zzverif.B2I(e.b), "c": zzverif.B2I(e.c)}
+		if zzverif.Param("absent", 0) == 1 {
+			// a column that does not satisfy its DEFINE is ABSENT from the event instead of 0: a missing
+			// column is NULL for DEFINE (never the value of an earlier event)
+			row = map[string]any{"id": i, "ts": e.ts}
+			if e.a {
+				row["a"] = 1
+			}
+			if e.b {
+				row["b"] = 1
+			}
+			if e.c {
+				row["c"] = 1
+			}
+		}
 		out = append(out, eng.Process(row, names[e.part])...)
 	}
 	out = append(out, eng.Flush()...)
